@@ -18,10 +18,19 @@ METHODS = ('min_fill', 'quickbb', 'acb')
 EX_CHUNKS = 22
 
 
+N_CORPUS = 24     # cases of the min_fill-suboptimal corpus (10 graphs each)
+
+
 def plan(tier, seed):
     if tier == 'quick':
-        return dict(n=EX_CHUNKS + 60 + 30, budget_s=70, case_timeout=200)
-    return dict(n=EX_CHUNKS + 1500 + 300, budget_s=700, case_timeout=400)
+        return dict(n=EX_CHUNKS + 60 + 30 + 6, budget_s=70, case_timeout=200)
+    return dict(n=EX_CHUNKS + 4000 + 600 + N_CORPUS, budget_s=700, case_timeout=400)
+
+
+def corpus():
+    import json, os
+    with open(os.path.join(os.path.dirname(os.path.dirname(os.path.abspath(__file__))), 'gen', 'data', 'minfill_hard.json')) as f:
+        return json.load(f)
 
 
 def all_graphs_upto5():
@@ -118,6 +127,8 @@ def judge(F, adj, viols, ctx, counters, with_acb=True):
             viols.append(C.viol(f'td-width-below-treewidth:{m}', f'{m} width {w} < treewidth {tw}', graph=show(adj), context=ctx))
     # helpers
     out = C.call(F.min_fill, {v: set(adj[v]) for v in adj})
+    if out['ok'] and n > 0 and out['value'][0] > tw:
+        counters['graphs_where_min_fill_is_suboptimal'] = counters.get('graphs_where_min_fill_is_suboptimal', 0) + 1
     if not out['ok']:
         viols.append(C.viol(f"min_fill-exception:{out['exc_type']}", out['exc'], graph=show(adj), context=ctx, traceback=out['tb']))
     else:
@@ -159,7 +170,8 @@ def run_case(tier, seed, index, spec=None):
     viols, keys, counters = [], [], {}
     evals = 0
     feats = set()
-    nrand = 60 if tier == 'quick' else 1500
+    nrand = 60 if tier == 'quick' else 4000
+    nfam = 30 if tier == 'quick' else 600
     if spec is not None:
         adj = {k: set(v) for k, v in spec.items()}
         judge(F, adj, viols, dict(replay=True), counters)
@@ -205,6 +217,29 @@ def run_case(tier, seed, index, spec=None):
             if half:
                 feats.add('several-components')
         sample = dict(block='random G(n,p)', n=n, p=p, graph=show(adj))
+    elif index >= EX_CHUNKS + nrand + nfam:
+        # graphs (found offline) on which the min_fill upper bound is not the treewidth, so that
+        # quickbb's branch and bound has to improve on its initial incumbent
+        cls = 'minfill-suboptimal-corpus'
+        k = index - (EX_CHUNKS + nrand + nfam)
+        rng = G.rng_for(seed, 'C10c', tier, index)
+        gs = corpus()
+        ncase = 6 if tier == 'quick' else N_CORPUS
+        for j, gspec in enumerate(gs):
+            if j % ncase != k:
+                continue
+            if tier == 'quick' and evals >= 7:
+                break
+            adj = {int(v): set(ns) for v, ns in gspec['adj'].items()}
+            judge(F, adj, viols, dict(corpus=j), counters)                      # canonical order: as found
+            evals += 1
+            keys.append(f'K{j}')
+            if seed or tier == 'thorough':
+                judge(F, present(rng, adj), viols, dict(corpus=j, shuffled=True), counters)
+                evals += 1
+                keys.append(f'K{j}s{seed}')
+        feats.add('minfill-suboptimal')
+        sample = dict(block='corpus of graphs with min_fill > treewidth', last=show(adj))
     else:
         cls = 'families'
         rng = G.rng_for(seed, 'C10f', tier, index)
@@ -229,7 +264,9 @@ def replay(rep):
 
 def finalize(tot, tier, seed):
     inc = []
-    for c in ('exhaustive<=5', 'random', 'families'):
+    if tot['obs'].get('graphs_where_min_fill_is_suboptimal', 0) == 0:
+        inc.append('no graph on which min_fill is suboptimal was run: quickbb search never had to improve its incumbent')
+    for c in ('exhaustive<=5', 'random', 'families', 'minfill-suboptimal-corpus'):
         if tot['classes'].get(c, 0) == 0:
             inc.append(f'class {c} not run')
     for f in ('isolated-vertex-with-other-edges', 'several-components'):
